@@ -50,6 +50,24 @@ def body(chk):
             for rpc in ((None, 2) if chk.tier == "quick" else (None, 2, 4, 5)):
                 cases.append(dict(level=level, images=images, rpc=rpc, seed=chk.seed + pi, fss=["local", "vtrace"] if fi % 3 == 0 or chk.tier == "thorough" else ["local"],
                                   sels=[("all",)], faults=[ft] if ft["kind"] != "none" else [], expect=expect, origin="file-fault", special=False))
+    # ---- a NON-FIRST image of a multi-image product (same layout as its siblings: dual / quad polarisation) cut short; and SEVERAL files
+    #      missing at once (only the small files have arrived so far): each still raises, a missing file as an OSError
+    rec = 192 + 3 * 2
+    for level, pols in (("1.5", [("HH", None), ("HV", None)]), ("1.5", [("HH", None), ("HV", None), ("VH", None), ("VV", None)]), ("1.1", [("HH", "F1"), ("HH", "F2"), ("HV", "F1")])):
+        images = [(pol, sc, 6, 3) for pol, sc in pols]
+        reclen = (192 if level == "1.5" else 544) + 3 * (2 if level == "1.5" else 8)
+        for idx in range(1, len(images)):
+            for cut in (720 + reclen, 720 + reclen + 7, 720 + 3 * reclen, 720 + 5 * reclen, 720 + 6 * reclen - 1):
+                for rpc in ((None, 4) if chk.tier == "quick" else (None, 1, 4, 6, 7)):
+                    cases.append(dict(level=level, images=images, rpc=rpc, seed=chk.seed + 600 + idx, fss=["local"] if cut % 2 else ["vtrace"], sels=[("all",)],
+                                      faults=[dict(file=f"img{idx + 1}", kind="truncated", cut=cut)], expect="error", origin="sibling-image-cut", special=False, common_descriptor=True))
+        for a in range(len(images)):
+            for b_ in range(a + 1, len(images)):
+                cases.append(dict(level=level, images=images, rpc=None, seed=chk.seed + 650, fss=["local", "vtrace"], sels=[("all",)],
+                                  faults=[dict(file=f"img{a + 1}", kind="missing", cut=0), dict(file=f"img{b_ + 1}", kind="missing", cut=0)], expect="OSError",
+                                  origin="two-images-missing", special=False))
+        cases.append(dict(level=level, images=images, rpc=None, seed=chk.seed + 651, fss=["local"], sels=[("all",)],
+                          faults=[dict(file="led", kind="missing", cut=0), dict(file="img1", kind="missing", cut=0)], expect="OSError", origin="leader-and-image-missing", special=False))
     # ---- image truncation at every cut of the TLC family x rpc below / at / above n
     fam = json.load(open(gf))
     for i, f in enumerate(fam):
